@@ -39,6 +39,14 @@ def obligations(tier: str) -> list[Ob]:
             stubs=["Endpoint.from_data -> arbitrary Endpoint | ParseError"],
         ),
     ]
+    obs.append(
+        harness_ob(
+            "tag_directories", "C16_tags.py", tier, timeout=200 if q else 600, cpus=1, replay_func="vlib.props.C16:replay",
+            encoded=["openapi_python_client:Project._build_api", "openapi_python_client:Project.build"],
+            stubs=["template rendering -> a marker naming the endpoint it was asked to render; Path.mkdir / write_text / shutil.rmtree recorded"],
+            bounds={"operations": "5 (two whose module names coincide under disjoint tag sets, one with three tags, one untagged)", "generate_all_tags": "both"},
+        )
+    )
     # behaviour-preserving options: the regenerated client satisfies the very same document-derived oracles
     variants = [
         ("field_prefix", {"field_prefix": "fp_"}, ["scalars", "enums"], ["params"]),
